@@ -21,7 +21,7 @@ Definition expired (c : cfg) (now hb : Z) : bool := (hb >=? 0) && (now >? hb + c
 Definition hb_step (c : cfg) (s : st) (now : Z) (ctrs : list ctr) : st * list Z :=
   match hbc s with
   | Some id => if is_active (c_cid c) ctrs id then (set_hb s id (wrap64 now), [])
-               else (close_all s, [L_CLOSE; L_HEARTBEAT_LOST])
+               else (close_all s, close_log s ++ [L_HEARTBEAT_LOST])
   | None => match find_counter (c_cid c) ctrs with
             | Some id => (set_hb s id (wrap64 now), [])
             | None => (s, [])
@@ -38,7 +38,7 @@ Definition due (s : st) (now : Z) : bool := now >? t_keep s + KEEPALIVE_TIMEOUT_
 
 Definition timeouts_p (c : cfg) (s : st) (now hb : Z) (ctrs : list ctr) : st * list Z * Z :=
   let s1 := if late c s now then close_all s else s in
-  let l1 := if late c s now then [L_CLOSE; L_SERVICE_TIMEOUT] else [] in
+  let l1 := if late c s now then close_log s ++ [L_SERVICE_TIMEOUT] else [] in
   let s2 := set_t_work s1 now in
   let r := if due s now then keepalive_p c s2 now hb ctrs else (s2, []) in
   let chk := now >? t_check s + RESOURCE_TIMEOUT_MS in
@@ -57,11 +57,12 @@ Proof.
     unfold hb_step; destruct (hbc _); try destruct (is_active _ _ _); try destruct (find_counter _ _); reflexivity.
 Qed.
 
-Lemma t_keep_close_all s : t_keep (close_all s) = t_keep s. Proof. reflexivity. Qed.
-Lemma t_check_close_all s : t_check (close_all s) = t_check s. Proof. reflexivity. Qed.
+Lemma t_keep_close_all s : t_keep (close_all s) = t_keep s. Proof. unfold close_all. destruct (closed s); reflexivity. Qed.
+Lemma t_check_close_all s : t_check (close_all s) = t_check s. Proof. unfold close_all. destruct (closed s); reflexivity. Qed.
+Lemma hbc_close_all s : hbc (close_all s) = hbc s. Proof. unfold close_all. destruct (closed s); reflexivity. Qed.
 
 Lemma t_check_hb_step c s now ctrs : t_check (fst (hb_step c s now ctrs)) = t_check s.
-Proof. unfold hb_step. destruct (hbc s); try destruct (is_active _ _ _); try destruct (find_counter _ _); reflexivity. Qed.
+Proof. unfold hb_step. destruct (hbc s); try destruct (is_active _ _ _); try destruct (find_counter _ _); try reflexivity. apply t_check_close_all. Qed.
 
 Lemma inter_ms_range c : 0 <= c_inter_ns c < LIM -> 0 <= inter_ms c < LIM.
 Proof. unfold inter_ms, LIM. intros. split. apply Z.div_pos; lia.
@@ -76,17 +77,18 @@ Proof.
   unfold check_timeouts, timeouts_p, late, due.
   rewrite gt_sum_ok by assumption. cbn [bind].
   set (lt := now >? t_work s + inter_ms c).
-  assert (Hk1 : t_keep (set_t_work (if lt then close_all s else s) now) = t_keep s) by (destruct lt; reflexivity).
+  assert (Hk1 : t_keep (set_t_work (if lt then close_all s else s) now) = t_keep s) by (destruct lt; cbn; [apply t_keep_close_all|reflexivity]).
   destruct lt eqn:El; cbn [bind].
-  - rewrite gt_sum_ok by (cbn; unfold KEEPALIVE_TIMEOUT_MS, LIM in *; lia). cbn [bind].
-    replace (t_keep (set_t_work (close_all s) now)) with (t_keep s) by reflexivity.
+  - change (t_keep (set_t_work (close_all s) now)) with (t_keep (close_all s)). rewrite t_keep_close_all.
+    rewrite gt_sum_ok by (cbn; unfold KEEPALIVE_TIMEOUT_MS, LIM in *; lia). cbn [bind].
     destruct (now >? t_keep s + KEEPALIVE_TIMEOUT_MS) eqn:Ed.
     + rewrite keepalive_eq by assumption. cbn [bind].
       destruct (keepalive_p c (set_t_work (close_all s) now) now hb ctrs) as [s3 l3] eqn:Ek.
       assert (t_check s3 = t_check s).
-      { unfold keepalive_p in Ek. inversion Ek. cbn. rewrite t_check_hb_step. destruct (expired c now hb); reflexivity. }
+      { unfold keepalive_p in Ek. inversion Ek. cbn. rewrite t_check_hb_step. destruct (expired c now hb); cbn; apply t_check_close_all. }
       rewrite gt_sum_ok by (unfold RESOURCE_TIMEOUT_MS, LIM in *; lia). cbn [bind fst snd]. rewrite H. reflexivity.
-    + cbn [bind]. rewrite gt_sum_ok by (cbn; unfold RESOURCE_TIMEOUT_MS, LIM in *; lia). cbn [bind fst snd]. reflexivity.
+    + cbn [bind]. change (t_check (set_t_work (close_all s) now)) with (t_check (close_all s)). rewrite t_check_close_all.
+      rewrite gt_sum_ok by (unfold RESOURCE_TIMEOUT_MS, LIM in *; lia). cbn [bind fst snd]. reflexivity.
   - rewrite gt_sum_ok by (cbn; unfold KEEPALIVE_TIMEOUT_MS, LIM in *; lia). cbn [bind].
     replace (t_keep (set_t_work s now)) with (t_keep s) by reflexivity.
     destruct (now >? t_keep s + KEEPALIVE_TIMEOUT_MS) eqn:Ed.
@@ -117,12 +119,12 @@ Definition tp_state (c : cfg) (s : st) (now hb : Z) (ctrs : list ctr) : st :=
        (if d then match f with Refresh id => Some id | _ => hbc s end else hbc s)
        (if d then match f with Refresh id => upd (vals s) (Z.to_nat id) (wrap64 now) | _ => vals s end else vals s)
        (next_id s)
-       ((if d && is_lost f then keep_dest else (fun x => x)) ((if late c s now then keep_dest else (fun x => x)) (regs s))).
+       (if negb (closed s) && (late c s now || (d && is_lost f)) then keep_dest (regs s) else regs s).
 
 Definition tp_log (c : cfg) (s : st) (now hb : Z) (ctrs : list ctr) : list Z :=
-  (if late c s now then [L_CLOSE; L_SERVICE_TIMEOUT] else []) ++
+  (if late c s now then close_log s ++ [L_SERVICE_TIMEOUT] else []) ++
   (if due s now then (if expired c now hb then [L_DRIVER_INACTIVE] else []) ++
-                     (if is_lost (fate_s c s ctrs) then [L_CLOSE; L_HEARTBEAT_LOST] else [])
+                     (if is_lost (fate_s c s ctrs) then (if closed s || late c s now then [] else [L_CLOSE]) ++ [L_HEARTBEAT_LOST] else [])
    else []).
 
 Definition tp_work (s : st) (now : Z) : Z :=
@@ -190,7 +192,7 @@ Lemma tp_state_wf c s now hb ctrs : wf s -> 0 <= now < LIM -> wf (tp_state c s n
 Proof.
   intros (Hw & Hk & Hc & Hr) Hn. unfold wf, tp_state. cbn [t_work t_keep t_check next_id regs].
   repeat split; try lia; try (destruct (due s now); lia); try (destruct (now >? _); lia).
-  destruct (due s now && _), (late c s now); unfold keep_dest; repeat apply filter_ok; assumption.
+  destruct (negb (closed s) && _); unfold keep_dest; try apply filter_ok; assumption.
 Qed.
 
 Lemma set_regs_wf s rs : wf s -> Forall (reg_ok (next_id s)) rs -> wf (set_regs s rs).
@@ -272,10 +274,10 @@ Lemma has_log c s now hb ctrs :
   let l := tp_log c s now hb ctrs in
   let lost := due s now && is_lost (fate_s c s ctrs) in
   has L_SERVICE_TIMEOUT l = late c s now /\ has L_DRIVER_INACTIVE l = due s now && expired c now hb /\
-  has L_HEARTBEAT_LOST l = lost /\ has L_CLOSE l = late c s now || lost.
+  has L_HEARTBEAT_LOST l = lost /\ has L_CLOSE l = negb (closed s) && (late c s now || lost).
 Proof.
-  cbv zeta. unfold tp_log.
-  destruct (late c s now), (due s now), (expired c now hb), (is_lost (fate_s c s ctrs)); vm_compute; auto.
+  cbv zeta. unfold tp_log, close_log.
+  destruct (closed s), (late c s now), (due s now), (expired c now hb), (is_lost (fate_s c s ctrs)); vm_compute; auto.
 Qed.
 
 Lemma if_some {A} (b : bool) (X : A) (P : A -> Prop) :
@@ -308,7 +310,7 @@ Proof.
   remember (late c s1 now) as L eqn:HeL. remember (due s1 now) as D eqn:HeD.
   remember (expired c now hb) as E eqn:HeE. remember (fate_s c s1 ctrs) as F eqn:HeF.
   apply if_some.
-  - rewrite H1, H2, H3, H0.
+  - rewrite H1, H2, H3.
     assert (HF : (match (if D then F else Absent) with Lost => true | _ => false end) = D && is_lost F)
       by (destruct D, F; reflexivity).
     rewrite HF. rewrite !eqb_reflx.
@@ -701,10 +703,10 @@ Lemma interservice_step m c s now hb ctrs ev s' r log act cl vs :
   wf s -> cfg_ok c = true -> op_ok (Cycle now hb ctrs ev) = true ->
   do_cycle m c s now hb ctrs ev = Some (s', OCycle r log act cl vs) ->
   (In L_SERVICE_TIMEOUT log <-> now > t_work s + inter_ms c) /\
-  (now > t_work s + inter_ms c -> closed s' = true /\ In L_CLOSE log) /\
+  (now > t_work s + inter_ms c -> closed s' = true /\ (closed s = false -> In L_CLOSE log)) /\
   (closed s' = true -> closed s = true \/ now > t_work s + inter_ms c \/ In L_HEARTBEAT_LOST log) /\
   (In L_HEARTBEAT_LOST log <-> now > t_keep s + KEEPALIVE_TIMEOUT_MS /\ fate_s c s ctrs = Lost) /\
-  cl = b2z (closed s') /\ (closed s = true -> closed s' = true).
+  cl = b2z (closed s') /\ (closed s = true -> closed s' = true) /\ (In L_CLOSE log -> closed s = false /\ closed s' = true).
 Proof.
   intros Hwf Hcfg Ho Hst. destruct (op_ok_cycle _ _ _ _ Ho) as [Hn Hh]. rewrite do_cycle_norm in Hst by assumption.
   unfold cyc_obs in Hst. cbv zeta in Hst. inversion Hst; subst. clear Hst.
